@@ -104,7 +104,25 @@ class _Gen:
         if k < 0.76:
             return [r.choice(["neg", "abs", "bool", "any"]), a]
         if k < 0.83:
-            return [r.choice(["<<", ">>"]), a, self.explicit_unsigned(readable)]
+            amt = self.explicit_unsigned(readable)
+            q = r.random()
+            if q < 0.25:
+                # amounts whose top bits are equal (as constants, or as one signal bit used twice): operand shortening in the
+                # backend must not treat them as sign extension
+                amt = ["const", r.choice([3, 6, 7, 3]), r.choice([2, 3, 3, 3]), False]
+                if amt[1] >= (1 << amt[2]):
+                    amt[1] = (1 << amt[2]) - 1
+            elif q < 0.35:
+                b = self.explicit_unsigned(readable, maxw=1)
+                if shape_of(b, self.sigs)[0] == 1:
+                    amt = ["cat", [b, b]]
+            lhs = a
+            if r.random() < 0.4:
+                # make sure signed operands of shifts are well represented
+                sg = [i for i in readable if self.sigs[i]["signed"] and self.sigs[i]["width"] >= 3]
+                if sg:
+                    lhs = ["sig", r.choice(sg)]
+            return [r.choice(["<<", ">>"]), lhs, amt]
         if k < 0.9:
             return ["mux", self.numeric(readable, depth - 1), a, self.numeric(readable, depth - 1)]
         e = self.explicit(readable, depth)
